@@ -120,6 +120,7 @@ Expected(d, e, got) ==
       [] e.op = "reclaim" -> Res(Reclaim(d), "ok")
       [] e.op = "pickle"  -> Res(d, "ok")
       [] e.op = "noop"    -> Res(d, "ok")
+      [] e.op = "api"     -> Res(d, "ok")
       [] e.op = "setcfg"  -> Res(d, "ok")
       [] e.op = "find"    -> Res(d, ToString(FindSpec(d, e.target)))
       [] e.op = "summary" -> [Res(d, "ok") EXCEPT !.out = SummarySpec(d)]
@@ -196,6 +197,34 @@ AggSeedsOK(got, out) ==
          = {<<n, got.nodes[n].seeds.v>> : n \in {m \in Ids(got) : got.nodes[m].expanded /\ got.nodes[m].seeds.v # <<>>}}
     /\ Len(out) = Cardinality({m \in Ids(got) : got.nodes[m].expanded /\ got.nodes[m].seeds.v # <<>>})
 
+\* the read-only accessors (op "api"): root, len, depth, node / stub / expanded ids, minimal_trap_spaces, node_is_minimal,
+\* node_successors, edge motifs (plain and reduced = without the variables fixed in the parent)
+SeqOfSet(X) == SortAsc(X)
+ReducedBy(m, sp) == [i \in DOMAIN m |-> IF sp[i] # 2 THEN 2 ELSE m[i]]
+ApiOK(got, o) ==
+    LET ids == Ids(got)
+        mins == {n \in ids : got.nodes[n].expanded /\ Succs(got, n) = {}}
+    IN /\ o[1] = 1
+       /\ o[2] = Len(got.nodes)
+       /\ o[3] = Max({got.nodes[n].depth : n \in ids} \cup {0})
+       /\ o[4] = [i \in 1..Len(got.nodes) |-> i]
+       /\ o[5] = SeqOfSet({n \in ids : ~got.nodes[n].expanded})
+       /\ o[6] = SeqOfSet({n \in ids : got.nodes[n].expanded})
+       /\ o[7] = SeqOfSet(mins)
+       /\ o[8] = SeqOfSet(mins)
+       /\ {<<o[9][i][1], SeqToSet(o[9][i][2])>> : i \in DOMAIN o[9]} = {<<n, Succs(got, n)>> : n \in {m \in ids : got.nodes[m].expanded}}
+       /\ \A i \in DOMAIN o[9] : Len(o[9][i][2]) = Cardinality(SeqToSet(o[9][i][2]))
+       /\ {<<o[10][i][1], o[10][i][2]>> : i \in DOMAIN o[10]} = DOMAIN got.edges
+       /\ Len(o[10]) = Cardinality(DOMAIN got.edges)
+       /\ \A i \in DOMAIN o[10] :
+             LET ed == o[10][i]
+                 ms == got.edges[<<ed[1], ed[2]>>]
+                 sp == got.nodes[ed[1]].space
+             IN /\ ed[3] = ms[1]
+                /\ ed[4] = ReducedBy(ms[1], sp)
+                /\ ed[5] = ms
+                /\ ed[6] = [k \in DOMAIN ms |-> ReducedBy(ms[k], sp)]
+
 Mismatch(x, got, e) ==
     (IF x.adopt \/ e.exc = "Hang" THEN {} ELSE
        (IF IdFreeNodes(x.d) = IdFreeNodes(got) /\ IdFreeEdges(x.d) = IdFreeEdges(got) THEN {} ELSE {"STRUCT"})
@@ -215,13 +244,14 @@ Mismatch(x, got, e) ==
        \cup (IF x.unsound THEN {"ORACLE"} ELSE {}))
     \* expanded_attractor_seeds(): exactly the expanded nodes with a non-empty seed list, each with the list the node reports
     \cup (IF e.op = "expseeds" /\ ~e.raised /\ ~AggSeedsOK(got, e.out) THEN {"QUERY"} ELSE {})
+    \cup (IF e.op = "api" /\ (e.raised \/ ~ApiOK(got, e.out)) THEN {"QUERY"} ELSE {})
     \cup (IF e.exc = "Hang" THEN {"HANG"} ELSE {})
     \cup (IF LoopsOK(e) THEN {} ELSE {"LOOP"})
     \cup (IF LoopsMechOK(e) THEN {} ELSE {"LOOPMECH"})
     \cup (IF WorkOK(e) THEN {} ELSE {"WORK"})
 
 PlainOp(e) == e.op \in {"new", "exp", "bfs", "dfs", "tgt", "aseeds", "cand", "seeds", "sets", "reclaim", "pickle",
-                         "control", "allseeds", "allsets", "expseeds", "noop", "setcfg", "find", "summary", "cmp"}
+                         "control", "allseeds", "allsets", "expseeds", "noop", "setcfg", "find", "summary", "cmp", "api"}
               \/ (e.op = "min" /\ ~e.skip) \/ (e.op = "block" /\ ~e.optsrc)
 
 \* C01: the six complete strategies with default settings, started on a fresh diagram
@@ -235,7 +265,7 @@ CompleteStrategy(e) ==
 NextMode(m, e) ==
     IF e.op = "new" THEN "fresh"
     ELSE IF m = "fresh" /\ CompleteStrategy(e) THEN "complete"
-    ELSE IF m = "complete" /\ e.op \in {"expseeds", "allseeds", "allsets", "seeds", "cand", "sets", "reclaim", "pickle", "find", "summary", "cmp", "noop"} /\ ~e.raised THEN "complete"
+    ELSE IF m = "complete" /\ e.op \in {"expseeds", "allseeds", "allsets", "seeds", "cand", "sets", "reclaim", "pickle", "find", "summary", "cmp", "noop", "api"} /\ ~e.raised THEN "complete"
     ELSE "other"
 
 InitEv == [op |-> "init"]
